@@ -2,7 +2,7 @@ SPECIFICATION Spec
 CONSTANTS
   Variants <- VariantsAll
   Modes <- ModesSyncX
-  MaxOps = 4
+  MaxOps = 5
   WriteSizes = {0,1,2,5}
   BufSizes = {0,2,4}
   InitBuf = 4
